@@ -1,8 +1,9 @@
 """C12 — allocations survive restart and replication unchanged."""
 import verif as V
+import locks
 
 PROP = "C12"
-SPEC = ["Bng.Spec.C12", "Bng.Spec.C12Nexus"]
+SPEC = ["Bng.Spec.C12", "Bng.Spec.C12Nexus"] + ["Bng.Spec.C12Locks"]
 COMPS = [
     V.Component("dist", monitors=["store-agree", "restart", "remote", "unique", "idempotent", "reclaimed", "reverse", "roundtrip"]),
     # PoolAllocator (store.go) over a fault-injecting MemoryAllocationStore shared with other pools
@@ -28,11 +29,12 @@ ASSUME = [
     "bitmap geometries with fewer than 2^64 units (GoodCfg)",
     "PoolAllocator (store.go) is modelled over the bitmap model with the store's records and the by-IP conflict index as a set of foreign prefixes; MemoryAllocationStore's Marshal/Unmarshal is exercised by the harness (rtstore) and modelled as the identity; modes.go (LocalAllocator/HybridAllocator, thin maps of pool id to PoolAllocator) is not modelled",
 ]
+ASSUME = ASSUME + [locks.ASSUME]
 
 
 def run(tier, seed):
-    return V.standard_check(PROP, SPEC, COMPS, LEVEL, ASSUME, tier, seed)
+    return V.standard_check(PROP, SPEC, COMPS, LEVEL, ASSUME, tier, seed, pre=locks.with_locks())
 
 
 def replay(path):
-    return V.replay(PROP, COMPS, path, SPEC)
+    return V.replay(PROP, COMPS, path, SPEC, pre=locks.with_locks())
